@@ -177,12 +177,12 @@ Definition retains_from_source : bool :=
   match sync_slice_params_retained with [] => false | _ => true end.
 Definition writes_params_from_source : bool :=
   match sync_slice_params_written with [] => false | _ => true end.
-(* append on a slice parameter happens only in three internal functions whose
-   argument is always a slice the library itself allocated (the encodation
-   buffers of datamatrix and pdf417), never on caller memory *)
+(* append on a slice parameter (which may write behind the argument into the caller's array) never
+   happens on a slice that can come from a caller of the library: every function that appends to a
+   parameter (gosync lists them in sync_slice_params_appended) only ever receives slices the library
+   itself allocated (gosync follows the actual arguments of all call sites back to exported functions) *)
 Definition appends_only_internal : bool :=
-  multi_incl sync_slice_params_appended
-    ["datamatrix.addPadding"; "datamatrix.calcECC"; "pdf417.encodeData"]%string.
+  match sync_api_slices_appended with [] => true | _ => false end.
 
 (* ---------- (iii) searching a Go map by value ---------- *)
 (* code39/code93 getChecksum range over a map (unspecified order) and return the
